@@ -84,6 +84,8 @@ class TypeRef:
     names: tuple  # python type tags accepted by isinstance
 
 
+LOGGING_LEVELS = {"logging.CRITICAL": 50, "logging.FATAL": 50, "logging.ERROR": 40, "logging.WARNING": 30, "logging.WARN": 30, "logging.INFO": 20, "logging.DEBUG": 10, "logging.NOTSET": 0}
+
 # stand-ins whose attribute set is complete by construction: a missing attribute is really missing
 CLOSED_STUBS = {"Meta", "Token", "ValidationError", "Context"}
 
@@ -124,6 +126,40 @@ def really_unhashable(k: Any, node=None):
     return AnalysisError(f"key {k!r} holds an analyser object that cannot be hashed")
 
 
+def is_namedtuple_class(cls: ast.ClassDef) -> bool:
+    return any(dotted(b) in ("NamedTuple", "typing.NamedTuple") for b in cls.bases)
+
+
+_BUSY = object()
+
+
+def _plain_value(v: Any) -> bool:
+    """A value whose Python type (and so its operator support) the analyser knows exactly."""
+    return v is None or isinstance(v, (bool, int, float, str, bytes, SStr, SNum, SBool, list, tuple, dict, set, frozenset))
+
+
+def _operand_error(a: Any, b: Any, text: str):
+    """TypeError of a binary operator - only when both operands are plain values; an analyser stand-in
+    (function reference, external object) on either side is a gap of the model, not an error of the code."""
+    if _plain_value(a) and _plain_value(b):
+        return PyExc("TypeError", (text,))
+    return AnalysisError(f"operator on a value the model does not cover: {text} ({a!r}, {b!r})"[:300])
+
+
+class NTup(tuple):
+    """Instance of a repository class derived from typing.NamedTuple: a tuple whose positions have names."""
+
+    def __new__(cls, qual: str, fields, values):
+        o = super().__new__(cls, values)
+        o.cls = qual
+        o.fields = tuple(fields)
+        return o
+
+    @property
+    def pytype(self) -> str:
+        return self.cls
+
+
 def dataclass_fields(repo, cls_qual: str):
     """[(name, default expr | None, default_factory expr | None)] if the class is a @dataclass without an
     explicit __init__, else None."""
@@ -132,7 +168,7 @@ def dataclass_fields(repo, cls_qual: str):
     except Exception:
         return None
     decos = [dotted(d.func) if isinstance(d, ast.Call) else dotted(d) for d in cls.decorator_list]
-    if not any(d in ("dataclass", "dataclasses.dataclass") for d in decos):
+    if not any(d in ("dataclass", "dataclasses.dataclass") for d in decos) and not is_namedtuple_class(cls):
         return None
     if any(isinstance(st, ast.FunctionDef) and st.name == "__init__" for st in cls.body):
         return None
@@ -408,7 +444,54 @@ class Interp:
                     inst.attrs[name] = self.eval_const_expr(cls_qual, ast.Call(func=factory, args=[], keywords=[]))
                 else:
                     raise PyExc("TypeError", (f"{cls_qual}: missing argument {name}",))
+            if is_namedtuple_class(self.repo.cls(cls_qual)):
+                return NTup(cls_qual, names, [inst.attrs[n] for n in names])
         return inst
+
+    def class_binding(self, cls_qual: str, name: str):
+        """(module, value expression) of a class-body assignment to ``name`` in the class or a repository base."""
+        seen, todo = set(), [cls_qual]
+        while todo:
+            c = todo.pop(0)
+            if c in seen or c.startswith("ext:") or c.count(".") != 1:
+                continue
+            seen.add(c)
+            mod, cname = c.split(".")
+            mi = self.repo.modules.get(mod)
+            if mi is None or cname not in mi.classes:
+                continue
+            b = mi.class_bindings.get(cname, {})
+            if name in b and name not in mi.methods.get(cname, {}):
+                return mod, cname
+            todo += list(self.facts.bases.get(c, []))
+        return None
+
+    def class_attr_value(self, mod: str, cname: str, name: str) -> Any:
+        memo = self.__dict__.setdefault("_class_attr_memo", {})
+        key = (mod, cname, name)
+        if key in memo:
+            if memo[key] is _BUSY:
+                raise AnalysisError(f"class attribute {mod}.{cname}.{name} refers to itself")
+            return memo[key]
+        memo[key] = _BUSY
+        try:
+            mi = self.repo.modules[mod]
+            binds = mi.class_bindings[cname]
+            expr = binds[name]
+            env: dict = {}
+            for n in ast.walk(expr):
+                if isinstance(n, ast.Name) and isinstance(n.ctx, ast.Load):
+                    if n.id in mi.methods.get(cname, {}) and n.id not in binds:
+                        # a function of the class body named before it became a method: plain, unbound
+                        env[n.id] = FuncRef(f"{mod}.{cname}.{n.id}", self_obj=None, super_of=("unbound",))
+                    elif n.id in binds and n.id != name:
+                        env[n.id] = self.class_attr_value(mod, cname, n.id)
+            v = Frame(self, f"{mod}.<module>", None, env).eval(expr)
+        except BaseException:
+            del memo[key]
+            raise
+        memo[key] = v
+        return v
 
     def make_dict(self, cls_qual: str, args: list, kwargs: dict) -> HDict:
         d = HDict()
@@ -469,6 +552,8 @@ def pytype_of(v: Any) -> str:
         return "dict"
     if isinstance(v, list):
         return "list"
+    if isinstance(v, NTup):
+        return v.cls
     if isinstance(v, tuple):
         return "tuple"
     if isinstance(v, (set,)):
@@ -937,6 +1022,8 @@ class Frame:
             return TypeRef(("int", "float", "bool"))
         if short in EXC_BASES or short.endswith("Error") or short in ("Exception", "UnexpectedInput"):
             return FuncRef(None, builtin="exc:" + short)
+        if full in LOGGING_LEVELS:
+            return LOGGING_LEVELS[full]
         if full in BUILTINS or full.startswith(("logging.", "warnings.")) or full in ("os.getcwd",) or full in OS_PATH_PURE:
             return FuncRef(None, builtin=full)
         if full in ("logging", "os", "sys", "json", "copy", "codecs", "click", "glob", "warnings", "functools", "itertools", "jsonschema", "jsonref", "os.path"):
@@ -945,7 +1032,7 @@ class Frame:
             return None
         if full == "itertools.zip_longest":
             return FuncRef(None, builtin="zip_longest")
-        if full in ("itertools.groupby", "itertools.chain", "itertools.chain.from_iterable"):
+        if full in ("itertools.groupby", "itertools.chain", "itertools.chain.from_iterable", "itertools.filterfalse"):
             return FuncRef(None, builtin=full.split("itertools.")[1])
         if full == "typing.Any" or full.startswith("typing."):
             return SOpaque("typing")
@@ -965,6 +1052,23 @@ class Frame:
             return obj.names[0]
         if name == "__name__" and isinstance(obj, FuncRef) and obj.cls:
             return obj.cls.split(".")[-1]
+        if isinstance(obj, FuncRef) and obj.builtin == "chain" and name == "from_iterable":
+            return FuncRef(None, builtin="chain.from_iterable")
+        if isinstance(obj, TypeRef) and "dict" in obj.names and name == "fromkeys":
+            return FuncRef(None, builtin="dict.fromkeys")
+        if isinstance(obj, NTup):
+            if name in obj.fields:
+                return obj[obj.fields.index(name)]
+            if name == "_fields":
+                return tuple(obj.fields)
+            if name in ("_asdict", "_replace"):
+                return FuncRef(None, builtin="ntup:" + name, self_obj=obj)
+            m = I.facts.method(obj.cls, name)
+            if m and not m.startswith("ext:"):
+                return FuncRef(m, self_obj=obj)
+            if name in ("count", "index"):
+                return FuncRef(None, builtin="method:" + name, self_obj=tuple(obj))
+            raise PyExc("AttributeError", (name,), node)
         if isinstance(obj, Inst):
             if name in obj.attrs:
                 return obj.attrs[name]
@@ -973,6 +1077,14 @@ class Frame:
             m = I.facts.method(obj.cls, name)
             if m and not m.startswith("ext:"):
                 return FuncRef(m, self_obj=obj)
+            found = I.class_binding(obj.cls, name)
+            if found is not None:
+                # a class-level default or table (``_cache = None``, a dispatch dict): evaluated once in the
+                # class namespace; every instance sees the same object
+                v = I.class_attr_value(*found, name)
+                if isinstance(v, FuncRef):
+                    raise AnalysisError(f"class attribute {obj.cls}.{name} is a function made at class-creation time")
+                return v
             if m:
                 return FuncRef(None, builtin="extmethod:" + m[4:], self_obj=obj)
             if not getattr(obj, "constructed", False):
@@ -1151,7 +1263,9 @@ class Frame:
         d = HDict()
         for k, v in zip(n.keys, n.values):
             if k is None:
-                raise AnalysisError("dict unpacking")
+                for k2, v2 in self.I.iter_items(self.eval(v)):
+                    d[k2] = v2
+                continue
             kk = self.eval(k)
             if isinstance(kk, SStr) and kk.is_concrete():
                 kk = kk.concrete()
@@ -1206,7 +1320,7 @@ class Frame:
                     a.extend(b)
                     return a
                 if isinstance(b, tuple):
-                    raise PyExc("TypeError", ("list + tuple",))
+                    raise _operand_error(a, b, "list + tuple")
                 return a + b
             if isinstance(a, tuple) and isinstance(b, tuple):
                 return a + b
@@ -1214,13 +1328,13 @@ class Frame:
                 return _num(a) + _num(b) if (isinstance(a, SNum) or isinstance(b, SNum)) else a + b
             if isinstance(a, list) and isinstance(b, SObj) and inplace:
                 raise AnalysisError("list += object")
-            raise PyExc("TypeError", (f"{pytype_of(a)} + {pytype_of(b)}",))
+            raise _operand_error(a, b, f"{pytype_of(a)} + {pytype_of(b)}")
         if isinstance(op, ast.Sub):
             if is_num_like(a) and is_num_like(b):
                 return _num(a) - _num(b) if (isinstance(a, SNum) or isinstance(b, SNum)) else a - b
             if isinstance(a, (set, frozenset)) and isinstance(b, (set, frozenset)):
                 return frozenset(a) - frozenset(b)
-            raise PyExc("TypeError", (f"{pytype_of(a)} - {pytype_of(b)}",))
+            raise _operand_error(a, b, f"{pytype_of(a)} - {pytype_of(b)}")
         if isinstance(op, ast.Mult):
             if is_strlike(a) and is_num_like(b):
                 return _simplify(av.repeat(a, b))
@@ -1233,7 +1347,7 @@ class Frame:
                     if isinstance(cnt, SNum):
                         raise AnalysisError("sequence repeated a symbolic number of times")
                     return seq * int(cnt)
-            raise PyExc("TypeError", (f"{pytype_of(a)} * {pytype_of(b)}",))
+            raise _operand_error(a, b, f"{pytype_of(a)} * {pytype_of(b)}")
         if isinstance(op, ast.Div):
             if is_num_like(a) and is_num_like(b):
                 if isinstance(a, SNum) or isinstance(b, SNum):
